@@ -469,6 +469,27 @@ pub unsafe fn cast_fn<F: Copy, G: Copy>(f: F) -> G {
     std::mem::transmute_copy(&f)
 }
 
+impl RawTable {
+    pub unsafe fn call_set_opcode(&self, pp: *mut ParsedPacket, v: u8) {
+        (self.set_opcode)(pp, v)
+    }
+    pub unsafe fn call_set_rcode(&self, pp: *mut ParsedPacket, v: u8) {
+        (self.set_rcode)(pp, v)
+    }
+    pub unsafe fn call_set_flags(&self, pp: *mut ParsedPacket, v: u32) {
+        (self.set_flags)(pp, v)
+    }
+    pub unsafe fn call_opcode(&self, pp: *const ParsedPacket) -> u8 {
+        (self.opcode)(pp)
+    }
+    pub unsafe fn call_rcode(&self, pp: *const ParsedPacket) -> u8 {
+        (self.rcode)(pp)
+    }
+    pub unsafe fn call_flags(&self, pp: *const ParsedPacket) -> u32 {
+        (self.flags)(pp)
+    }
+}
+
 pub fn raw_table() -> RawTable {
     let t = fn_table();
     macro_rules! tm {
